@@ -27,6 +27,9 @@ def setup(rep):
     rep.clause("attenuation-interpolation-grid", "N", "the log-spaced interpolation grid used when attenuation_interpolation is given")
     rep.clause("attenuation-monotone-in-f", "N", "needs monotonicity of every ice model's attenuation length in f through the quadrature")
     rep.clause("layered-transmission-energy", "N", "Fresnel transmission amplitudes may exceed 1; the energy statement needs impedances")
+    rep.clause("bounded-uniform-attenuation", "B", "native sampling of UniformRayTracer solutions (direct and reflected, up and down): "
+               "attenuation in (0,1], even in f, not increasing with |f|, equal to exp(-path integral of ds/L) by independent quadrature; "
+               "the horizontal-segment branch is proved (attenuation-range)")
     rep.assume("A1, A2 (sqrt/sin/cos axioms), complex numbers modelled as pairs of reals")
 
 
